@@ -87,10 +87,18 @@ def run_job(env, job):
                 bad.append(g)
         m = ctx.check([mk_or(bad)])
         cex = []
+        cross = None
+        if m is None and job['kind'] == 'rev' and not specs.CANARY and (env.tier == 'thorough' or la + lb <= 4) and la + lb <= 8:
+            # the same verification condition re-decided by z3 4.8.12 and cvc5 (both must say unsat as well)
+            from symgo.interp import cross_check
+            cross = cross_check(ctx, [mk_or(bad)], 'c01_%d_%d' % (la, lb), timeout_s=120 if env.tier == 'quick' else 900)
+            wrong = {k: v for k, v in cross.items() if v not in ('unsat', 'timeout', 'not installed')}
+            if wrong:
+                raise Inconclusive('solvers disagree on the verification condition of rev_%d_%d: %r' % (la, lb, cross))
         if m is not None:
             cex.append(dict(func='VerifC01Rev', args=[model_bytes(m, a), model_bytes(m, b)], kind='ret', code=1))
         return dict(status='viol' if cex else 'ok', cex=cex, obligations=len(outs),
-                    samples=[dict(obligation='forall a in S^%d, b in S^%d%s: sign(verrevcmp(a,b)) == dpkg_spec(a,b), no panic, loops within %d iterations' % (la, lb, (' around the shared %s %r' % (job['where'], job['fixed'].decode())) if job['kind'] == 'long' else '', I.unwind), result='sat (counterexample)' if cex else 'unsat')],
+                    samples=[dict(obligation='forall a in S^%d, b in S^%d%s: sign(verrevcmp(a,b)) == dpkg_spec(a,b), no panic, loops within %d iterations' % (la, lb, (' around the shared %s %r' % (job['where'], job['fixed'].decode())) if job['kind'] == 'long' else '', I.unwind), result='sat (counterexample)' if cex else 'unsat', cross_checked=cross)],
                     stats=dict(I.stats, **ctx.stats, solver_time=ctx.solver_time))
     ua, ra, ub, rb = job['lens']
     I, ctx = env.interp(merge=True, unwind=4 * max(job['lens']) + 8, timeout_ms=900000)
